@@ -3,7 +3,7 @@
 // rank with a sequential reference computed locally from a pure value function.  Built with smpicxx, run by smpimain.
 //
 //   coll <name> <grid q|t> list                      rank 0 prints "C id np root count ty op var nontrivial" and exits
-//   coll <name> <grid q|t> run <scorefile> a:b ...   runs case ids in [a,b) for every range, in increasing order
+//   coll <name> <grid q|t> run <scorefile> [sizes=lo-hi] [nocatch] a:b ...   runs case ids in [a,b) for every range
 //
 // "REFUSED id rank=r msg=..." : the algorithm threw std::invalid_argument (its explicit refusal) for this case.
 // Output (line buffered): "BAD id rank=r kind=K idx=i got=.. exp=.." (first mismatch of a rank in a case),
@@ -395,7 +395,12 @@ int main(int argc, char** argv)
   MPI_Type_commit(&cx.derived);
   MPI_Op_create(user_fn, 1, &cx.user);
   std::vector<MPI_Comm> comm(wsize + 1, MPI_COMM_NULL), sync(wsize + 1, MPI_COMM_NULL);
-  for (int np = 1; np <= wsize; np++) {
+  // All communicator sizes lo..hi are created up front whatever the cases requested, so that a case sees the same
+  // library state in a batch and when it is re-run alone (some algorithms are influenced by other communicators).
+  // "sizes=2-17": the driver found that creating the 1-rank communicator already dies with this algorithm selected.
+  int size_lo = 1, size_hi = wsize;
+  for (int a = 5; a < argc; a++) sscanf(argv[a], "sizes=%d-%d", &size_lo, &size_hi);
+  for (int np = std::max(1, size_lo); np <= std::min(wsize, size_hi); np++) {
     MPI_Comm_split(MPI_COMM_WORLD, g_wrank < np ? 0 : MPI_UNDEFINED, g_wrank, &comm[np]);
     if (comm[np] != MPI_COMM_NULL) { MPI_Comm_dup(comm[np], &sync[np]); MPI_Comm_set_errhandler(comm[np], MPI_ERRORS_RETURN); }
   }
@@ -403,7 +408,7 @@ int main(int argc, char** argv)
   for (auto& rg : ranges)
     for (int id = std::max(0, rg.first); id < rg.second && id < (int)cases.size(); id++) {
       const Case& c = cases[id];
-      if (g_wrank >= c.np) continue;
+      if (g_wrank >= c.np || c.np < size_lo || c.np > size_hi) continue;
       int rank;
       MPI_Comm_rank(comm[c.np], &rank);
       p2p_barrier(sync[c.np], rank, c.np);
